@@ -186,6 +186,10 @@ func (d *countDS) waitIterators(grace time.Duration) (int, []string) {
 			}
 			return n, sites
 		}
+		if debugSlow != nil && time.Since(start) > 500*time.Millisecond {
+			debugSlow(n, sites)
+			debugSlow = nil
+		}
 		time.Sleep(2 * time.Millisecond)
 	}
 }
@@ -260,8 +264,8 @@ func fnName(l string) string {
 // the driver's own goroutines, Go runtime helpers, and (documented in checks/C20.json) the
 // server-lifetime workers that a request may start lazily and that end with Server.Close.
 var allowRequestScope = []string{
-	"cmd/c20.(*runner).", // the driver's own call goroutines and cancel timers
-	"cmd/c20.main",       // the driver's main goroutine
+	"main.(*runner).",    // the driver's own call goroutines
+	"main.main",          // the driver's main goroutine
 	"runtime.ensureSigM", // runtime
 	"os/signal.",         // runtime
 	"runtime.ReadTrace",  // runtime
@@ -310,6 +314,8 @@ func waitGoroutines(base map[int64]gor, allow []string, grace time.Duration) []g
 }
 
 var maxCensusWaitMs, maxIterWaitMs int
+
+var debugSlow func(int, []string)
 
 // settle waits until the set of goroutine ids stops changing (used to take baselines).
 func settle(max time.Duration) map[int64]gor {
